@@ -833,3 +833,88 @@ class align_comments_cte:
 
 
 REG.add('sqlparse.engine.grouping.align_comments', 'shape: WITH cte <comment> SELECT', align_comments_cte)
+
+
+# --------------------------------------------------------------------------------- remaining joiner passes on explicit shapes (C13, C03)
+
+def _shape_operation(ex, st):
+    from contracts.sql import _mk_leaf, _ws1
+    T = ex.W.T
+    a, b = _name(ex, st, 'lhs'), _name(ex, st, 'rhs')
+    op = _mk_leaf(ex, st, None, 'op', (T.Operator, T.Wildcard))
+    w1, w2 = _ws1(ex, st, 'ws1'), _ws1(ex, st, 'ws2')
+    return _stmt_around(ex, st, [_ident(ex, st, 'lident', [a]), w1, op, w2, _ident(ex, st, 'rident', [b])],
+                        {'L': a, 'OP': op, 'R': b})
+
+
+def _shape_typecast(ex, st):
+    from contracts.sql import _mk_leaf
+    T = ex.W.T
+    a = _name(ex, st, 'col')
+    cc = _mk_leaf(ex, st, None, 'cast', (T.Punctuation,), value='::')
+    ty = _mk_leaf(ex, st, None, 'type', (T.Name.Builtin, T.Name))
+    return _stmt_around(ex, st, [_ident(ex, st, 'cident', [a]), cc, ty], {'COL': a, 'CAST': cc, 'TYPE': ty})
+
+
+def _shape_typed_literal(ex, st):
+    from contracts.sql import _mk_leaf, _ws1
+    T, sql = ex.W.T, ex.W.sql
+    kw = _mk_leaf(ex, st, None, 'kw_date', (T.Name.Builtin,), normalized='DATE')
+    st.objs[kw.oid]['value'] = SStr(z3.StringVal('DATE'))
+    st.objs[kw.oid]['TXT'] = SStr(z3.StringVal('DATE'))
+    lit = _mk_leaf(ex, st, None, 'lit', (T.String.Single,))
+    w1 = _ws1(ex, st, 'ws1')
+    return _stmt_around(ex, st, [kw, w1, lit], {'KW': kw, 'LIT': lit, 'W1': w1})
+
+
+def _shape_assignment(ex, st):
+    from contracts.sql import _mk_leaf, _ws1
+    T = ex.W.T
+    a = _name(ex, st, 'var')
+    asg = _mk_leaf(ex, st, None, 'assign', (T.Assignment,), value=':=')
+    num = _mk_leaf(ex, st, None, 'num', (T.Number.Integer,))
+    semi = _mk_leaf(ex, st, None, 'semi', (T.Punctuation,), value=';')
+    w1, w2 = _ws1(ex, st, 'ws1'), _ws1(ex, st, 'ws2')
+    from contracts.sql import _mk_node
+    st.ghost.update({'VAR': a, 'ASG': asg, 'NUM': num, 'SEMI': semi})
+    return _mk_node(ex, st, ex.W.sql.Statement, 'tlist', [_ident(ex, st, 'vident', [a]), w1, asg, w2, num, semi])
+
+
+def _shape_comments(ex, st):
+    from contracts.sql import _mk_leaf, _mk_node, _ws1
+    T, sql = ex.W.T, ex.W.sql
+    c1 = _mk_leaf(ex, st, None, 'c1', (T.Comment.Multiline, T.Comment.Single))
+    c2 = _mk_leaf(ex, st, None, 'c2', (T.Comment.Multiline, T.Comment.Single))
+    nl = _mk_leaf(ex, st, None, 'nl', (T.Newline,))
+    st.objs[nl.oid]['is_whitespace'] = True
+    st.objs[nl.oid]['is_newline'] = True
+    x = _mk_leaf(ex, st, None, 'kw_select', (T.Keyword.DML,), normalized='SELECT')
+    st.ghost.update({'C1': c1, 'C2': c2, 'NL': nl, 'X': x})
+    return _mk_node(ex, st, sql.Statement, 'tlist', [c1, nl, c2, x])
+
+
+MORE_JOINER_SHAPE_CASES = []
+for _pass, _mk, _what, _ens in (
+    ('group_operator', _shape_operation, 'a <operator> b',
+     ['len(tlist.tokens) == 7', 'isinstance(tlist.tokens[2], sql.Operation)', 'len(tlist.tokens[2].tokens) == 5',
+      'tlist.tokens[2].tokens[0].tokens[0] is L', 'tlist.tokens[2].tokens[2] is OP', 'tlist.tokens[2].tokens[4].tokens[0] is R',
+      'OP.ttype is T.Operator', 'tlist.tokens[4] is FROM']),
+    ('group_typecasts', _shape_typecast, 'col :: type',
+     ['len(tlist.tokens) == 7', 'isinstance(tlist.tokens[2], sql.Identifier)', 'len(tlist.tokens[2].tokens) == 3',
+      'tlist.tokens[2].tokens[0] is COL', 'tlist.tokens[2].tokens[1] is CAST', 'tlist.tokens[2].tokens[2] is TYPE',
+      'tlist.tokens[4] is FROM']),
+    ('group_assignment', _shape_assignment, 'var := 1 ;',
+     ['len(tlist.tokens) == 1', 'isinstance(tlist.tokens[0], sql.Assignment)', 'len(tlist.tokens[0].tokens) == 6',
+      'tlist.tokens[0].tokens[0].tokens[0] is VAR', 'tlist.tokens[0].tokens[2] is ASG', 'tlist.tokens[0].tokens[4] is NUM',
+      'tlist.tokens[0].tokens[5] is SEMI']),
+    ('group_comments', _shape_comments, 'comment <newline> comment X',
+     ['len(tlist.tokens) == 2', 'isinstance(tlist.tokens[0], sql.Comment)', 'len(tlist.tokens[0].tokens) == 3',
+      'tlist.tokens[0].tokens[0] is C1', 'tlist.tokens[0].tokens[1] is NL', 'tlist.tokens[0].tokens[2] is C2',
+      'tlist.tokens[1] is X']),
+):
+    _ns = {'__doc__': 'the pass %s on an explicit statement containing  %s : what it groups is exactly the written construct'
+                      % (_pass, _what),
+           'exec_class': HeapExec, 'params': {'tlist': _mk}, 'requires': [], 'ensures': _ens, 'raises': [],
+           'shape_case': True, 'serves': ['C13', 'C03']}
+    REG.add('sqlparse.engine.grouping.' + _pass, 'shape: ' + _what, type('pass_shape_' + _pass, (), _ns))
+    MORE_JOINER_SHAPE_CASES.append(('sqlparse.engine.grouping.' + _pass, 'shape: ' + _what))
